@@ -72,11 +72,11 @@ def run_rule(case, V=None, deadline=20.0, fork=False):
     rule = case["rule"]
     dt = {"int64": np.int64, "int32": np.int32, "float": float}[case.get("dtype", "int64")]
     def go():
-        P = np.array(case["P"], dtype=dt); P0 = P.copy()
+        P = lay(np.array(case["P"], dtype=dt), case.get("layout")); P0 = P.copy()
         prof = StrictCompleteProfile.of(P)
         res = dict(status="ok")
         if rule == "Double":
-            P2 = np.array(case["P2"], dtype=dt); prof2 = StrictCompleteProfile.of(P2)
+            P2 = lay(np.array(case["P2"], dtype=dt), case.get("layout")); P20 = P2.copy(); prof2 = StrictCompleteProfile.of(P2)
             e1, r1 = make_elicitor(V, case.get("memoize", True), case.get("ezi", True), integer=True)
             e2, r2 = make_elicitor(case["V2"] if "V2x" not in case else case["V2x"], case.get("memoize", True), case.get("ezi", True), integer=True)
             d = DoubleLambdaTSF(case["k"], case["k2"], zero_indexed=case.get("zi", True))
@@ -86,23 +86,39 @@ def run_rule(case, V=None, deadline=20.0, fork=False):
                     d.get_simulated_cardinal_profiles(StrictCompleteProfile.of(np.array(pre["P"], dtype=np.int64)), StrictCompleteProfile.of(np.array(pre["P2"], dtype=np.int64)), pa, pb)
                 except Exception:  # noqa
                     pass
+            if case.get("same_profile_first") is not None:      # history: the same two profile objects went through the rule (other lambdas) before
+                try:
+                    k0 = case["same_profile_first"]; pa, _ = make_elicitor(V, True, True, integer=True); pb, _ = make_elicitor(case["V2"], True, True, integer=True)
+                    DoubleLambdaTSF(k0, k0, zero_indexed=case.get("zi", True)).get_simulated_cardinal_profiles(prof, prof2, pa, pb)
+                except Exception:  # noqa
+                    pass
             vts = d.get_simulated_cardinal_profiles(prof, prof2, e1, e2)
             res.update(vt=np.asarray(vts[0]).tolist(), vt2=np.asarray(vts[1]).tolist(), trace=r1.trace, trace2=r2.trace,
                        count=e1.elicitation_count, count2=e2.elicitation_count)
             if case.get("want_out"):
                 e1b, _ = make_elicitor(V, True, True, integer=True); e2b, _ = make_elicitor(case["V2"], True, True, integer=True)
                 res["out"] = [[int(a), int(b)] for a, b in d.scf(prof, prof2, e1b, e2b)]
+            res["mutated"] = P.tobytes() != P0.tobytes() or P2.tobytes() != P20.tobytes()
             return res
-        if rule == "KARV": r = KARV(k=case["k"], tie_breaker=case.get("tb", "accept"), zero_indexed=case.get("zi", True))
-        elif rule == "TSF": r = LambdaTSF(lambda_=case["k"], zero_indexed=case.get("zi", True))
-        elif rule == "M2Q": r = MatchTwoQueries(zero_indexed=case.get("zi", True))
-        else: r = LambdaPRV(lambda_=case["k"], tie_breaker=case.get("tb", "accept"), zero_indexed=case.get("zi", True))
-        def sim(p_, e_):
-            return r.score(p_, e_) if rule == "PRV" else r.get_simulated_cardinal_profile(p_, e_)
+        def mkrule(k_):
+            if rule == "KARV": return KARV(k=k_, tie_breaker=case.get("tb", "accept"), zero_indexed=case.get("zi", True))
+            if rule == "TSF": return LambdaTSF(lambda_=k_, zero_indexed=case.get("zi", True))
+            if rule == "M2Q": return MatchTwoQueries(zero_indexed=case.get("zi", True))
+            return LambdaPRV(lambda_=k_, tie_breaker=case.get("tb", "accept"), zero_indexed=case.get("zi", True))
+        r = mkrule(case["k"])
+        def sim(p_, e_, r_=None):
+            r_ = r if r_ is None else r_
+            return r_.score(p_, e_) if rule == "PRV" else r_.get_simulated_cardinal_profile(p_, e_)
         for pre in case.get("prelude", []):        # the same rule object is first used on other instances
             try:
                 pe, _ = make_elicitor(pre["V"], True, True)
                 sim(StrictCompleteProfile.of(np.array(pre["P"], dtype=np.int64)), pe)
+            except Exception:  # noqa
+                pass
+        if case.get("same_profile_first") is not None:      # history: the same profile object went through the rule with another parameter before
+            try:
+                pe, _ = make_elicitor(V, True, True)
+                sim(prof, pe, mkrule(case["same_profile_first"]))
             except Exception:  # noqa
                 pass
         el, rec = make_elicitor(V, case.get("memoize", True), case.get("ezi", True), eclass=case.get("eclass", "lambda"))
